@@ -12,17 +12,12 @@ PROP = {
         "epoch+exp for every exp up to 9999-12-31T23:59:59Z and is never mapped into the past beyond that",
         "the claims required at the JWT layer (AnyClaims::required_claims) contain `exp` and are required by both "
         "claims versions; v1 additionally requires exp, nbf, aud",
-        "[thorough, not discharged yet - see not_decided] build_validation() instantiates the ASSUMED dependency "
+        "[thorough tier: c10_profile, c10_profile_nbf, ~35 min each] build_validation() instantiates the ASSUMED dependency "
         "predicate Accept(profile, key, now, token) with algorithms == [EdDSA], validate_exp, validate_nbf, "
         "validate_aud with aud == {\"snap\"}, required_spec_claims >= AnyClaims::required_claims() (incl. exp), "
         "leeway == 60, reject_tokens_expiring_in_less_than == 0, no iss/sub restriction",
     ],
     "not_decided": [
-        "validation-profile harnesses c10_profile / c10_profile_nbf: written and compiled, but CBMC does not finish "
-        "symbolic execution of ONE hashbrown insert (`Validation::new` inserts \"exp\" into a HashSet<String>; SSE2 "
-        "group probing is not constant-propagated, probing loop x SIMD-bitmask loop x memcmp unrolled 17 each): "
-        ">1500 s with the full function, >900 s with both setters replaced by recorders (machine load ~47). "
-        "Registered in tier thorough; F-nbf is instead confirmed by a plain cargo test (fixes/f-nbf.md)",
         "the acceptance predicate itself (jsonwebtoken::decode: base64, serde_json, Ed25519) - assumed dependency contract",
         "key selection by `kid` (async fn verify, JWKS store), untagged-enum version dispatch (serde), "
         "lifetime = exp - now inside the axum handler (api/crpc.rs) - not separately callable",
@@ -64,10 +59,10 @@ PROP = {
             "anchors": [(TV, ["build_validation", "verify"])],
             "functions": ["build_validation"],
             "harnesses": [
-                H("c10_profile", "P", tier="experimental", what="validation profile: EdDSA only, exp, audience == {snap}, "
-                  "required claims, leeway 60 (constant function; setters observed by recorders) - NOT discharged within 900 s",
+                H("c10_profile", "P", tier="thorough", what="validation profile: EdDSA only, exp, audience == {snap}, "
+                  "required claims, leeway 60 (constant function; setters observed by recorders); ~35 min",
                   timeout=3600),
-                H("c10_profile_nbf", "P", tier="experimental", what="validation profile: validate_nbf (F-nbf) - NOT discharged within 1200 s",
+                H("c10_profile_nbf", "P", tier="thorough", what="validation profile: validate_nbf is enabled (F-nbf); ~35 min",
                   timeout=3600),
             ],
         },
